@@ -23,6 +23,22 @@ log of the harness bodies / effects / recording caches:
   O4  effects: one call per body execution, right after it (and its callback), with its value,
       in registration order; never more calls than body executions;
   O5  a NoCache dataset evaluated at the root runs its body every time.
+O1 also covers DEPENDENCIES: a cached dataset reached below the root under the root's own (unmodified)
+dictionary belongs to the class of that dictionary, exactly as if it had been evaluated at the root.
+
+Further families (added after seeded changes the families above did not notice):
+  * LONG histories (sweep_scenarios, in the correspondence too): more than a hundred distinct assignments
+    of the option one dataset depends on, then exact / extra-key / permuted repeats of early, middle and
+    late ones - entries are never evicted; and, oracle only, api_sweep: thousands of distinct assignments
+    on graphs built directly with labrea's public entry points (@dataset, dataset(cache=MemoryCache),
+    cache=<instance>, set_cache, cached(...)), counted by counters inside the bodies and effects;
+  * MUTATOR histories (mut_scenarios): public mutators of a dataset called BETWEEN evaluations of one
+    long-lived graph - add_effects / add_effect (callbacks or Effect objects), disable_effects /
+    enable_effects, set_cache (instance / callable / NoCache), set_dispatch, register, overload (decorator
+    applied to an existing dataset), with_options / with_default_options derivatives taken after the first
+    evaluation.  The history is read statically as a sequence of dataset tables (static_envs: what each
+    mutator does to the description, mirroring dataset.py), which gives the model term (the same cache
+    ids shared along the phases) and the per-operation table the oracle O1-O5 is evaluated against.
 """
 import contextlib
 
@@ -706,59 +722,109 @@ def assignment(scn, op, memo):
 
 # ----------------------------------------------------------------------------- the oracle
 
-def oracle(scn, il=None):
-    """-> list of failure dicts (desc, op_index, ...)"""
-    env, ops = scn["env"], scn["ops"]
+def cid_of(env, i):
+    """the id of the cache object dataset i uses (its own id unless a set_cache mutator replaced it; derivatives
+    use the cache of the dataset they were taken from)"""
+    b = base_of(env, i)
+    return env[b].get("cid", b)
+
+
+def oracle(scn, il=None, envs=None, epochs=None, run=None):
+    """-> list of failure dicts (desc, op_index, ...)
+    envs / epochs (mutator histories only): the dataset table as it stands when operation j runs (static_envs)
+    and a counter that changes whenever a mutator replaced a cache or changed what a dataset selects"""
+    ops = scn["ops"]
     meta = scn.get("meta") or [("fresh", None)] * len(ops)
     if il is None:
-        il = core.run_impl(scn)
+        il = (run or core.run_impl)(scn)
     toks = [tokens_of(l) for l in il]
     ok = [cp.split(l)[0].startswith("ok:") for l in il]
-    fails, checks = [], dict(O1=0, O2=0, O3=0, O4=0, O5=0, O1_overridden_entries=0)
-    memo = {}
+    fails, checks = [], dict(O1=0, O2=0, O3=0, O4=0, O5=0, O1_overridden_entries=0, O1_dependencies=0)
+    memos = {}
+
+    def E(j):
+        return scn["env"] if envs is None else envs[j]
+
+    def S(j):
+        return scn if envs is None else dict(scn, env=envs[j])
+
+    def memo_of(j, tag=None):
+        return memos.setdefault((id(E(j)), tag), {})
+
+    def epoch(j):
+        return 0 if epochs is None else epochs[j]
 
     def root_ds(j):
         x = scn["exprs"][ops[j][1]]
-        return x[1] if x[0] == "dataset" else None
+        return x[1] if x[0] == "dataset" and x[1] in E(j) else None
 
-    def mem(i):
+    def mem(j, i):
+        env = E(j)
         return env[base_of(env, i)].get("cache", "mem") == "mem"
 
-    # O1: at most one body-running successful evaluation per relevant assignment
+    # O1: at most one body-running successful evaluation per relevant assignment - of the dataset evaluated at
+    # the root, and of every cached dataset reached below it under the root's own dictionary
     classes = {}
     for j, op in enumerate(ops):
+        env = E(j)
         i = root_ds(j)
-        if op[0] != "evaluate" or i is None or not mem(i) or not cache_enabled(op) or not ok[j]:
+        if op[0] != "evaluate" or not cache_enabled(op):
             continue
-        f = own_fids(env, i)
-        ran = sum(count_calls(toks[j], x) for x in f["body"] + f["impls"])
-        if not (f["body"] or f["impls"]):
+        if i is not None and mem(j, i) and ok[j]:
+            f = own_fids(env, i)
+            ran = sum(count_calls(toks[j], x) for x in f["body"] + f["impls"])
+            if f["body"] or f["impls"]:
+                try:
+                    cls = assignment(S(j), op, memo_of(j))
+                except Exception as e:  # the reference evaluation itself broke: not a statement about the cache
+                    cls = None
+                if cls is not None:
+                    cls = (cid_of(env, i), epoch(j), cls[1])
+                    checks["O1"] += 1
+                    if any(e[1] == "fixed by forced pre-sets" for e in cls[2]):
+                        checks["O1_overridden_entries"] += 1     # (a sub-count of O1, not a further evaluation)
+                    if ran:
+                        if cls in classes:
+                            fails.append(dict(oracle="O1", desc="the dataset's body ran again under the same assignment of the options it depends on",
+                                              op_index=j, first_run_at=classes[cls], depends_on=[e[0] for e in cls[2]]))
+                        else:
+                            classes[cls] = j
+        root = scn["exprs"][op[1]]
+        if root[0] == "dataset" and root[1] not in env:
             continue
-        try:
-            cls = assignment(scn, op, memo)
-        except Exception as e:  # the reference evaluation itself broke: not a statement about the cache
+        if modifies_options(env, root):
             continue
-        checks["O1"] += 1
-        if any(e[1] == "fixed by forced pre-sets" for e in cls[1]):
-            checks["O1_overridden_entries"] += 1     # (a sub-count of O1, not a further evaluation)
-        if ran:
-            if cls in classes:
-                fails.append(dict(oracle="O1", desc="the dataset's body ran again under the same assignment of the options it depends on",
-                                  op_index=j, first_run_at=classes[cls], depends_on=[e[0] for e in cls[1]]))
+        for d in sorted(closure(env, root)):
+            if d == i or env[d].get("derived") is not None or not mem(j, d) or not reliable(S(j), d):
+                continue
+            b = own_fids(env, d)["body"][0]
+            if not count_calls(toks[j], b):
+                continue
+            try:    # the class of the root's dictionary for d, exactly as if d had been evaluated at the root
+                cls = assignment(dict(S(j), exprs=list(scn["exprs"]) + [("dataset", d)]), (op[0], len(scn["exprs"])) + tuple(op[2:]), memo_of(j, d))
+            except Exception:
+                continue
+            cls = (cid_of(env, d), epoch(j), cls[1])
+            checks["O1_dependencies"] += 1
+            if cls in classes and classes[cls] != j:
+                fails.append(dict(oracle="O1", desc=f"the body of dataset {d}, reached below the root under the root's own dictionary, ran again under "
+                                                    "the same assignment of the options it depends on",
+                                  op_index=j, first_run_at=classes[cls], dataset=d, depends_on=[e[0] for e in cls[2]]))
             else:
-                classes[cls] = j
+                classes.setdefault(cls, j)
 
     # O2: repeat / never-mentioned keys / permuted order run nothing
     for j, op in enumerate(ops):
+        env = E(j)
         kind, src = meta[j]
         i = root_ds(j)
-        if kind not in ("repeat", "extra", "perm") or op[0] != "evaluate" or i is None or not mem(i):
+        if kind not in ("repeat", "extra", "perm") or op[0] != "evaluate" or i is None or not mem(j, i):
             continue
         if not (cache_enabled(op) and cache_enabled(ops[src]) and ok[src]):
             continue
         checks["O2"] += 1
         f = own_fids(env, i)
-        cid = base_of(env, i)
+        cid = cid_of(env, i)
         bad = None
         if not ok[j]:
             bad = "fails although the original evaluation succeeded"
@@ -797,13 +863,14 @@ def oracle(scn, il=None):
 
     # O3: sharing inside one evaluation
     for j, op in enumerate(ops):
+        env = E(j)
         if op[0] != "evaluate" or not cache_enabled(op) or not ok[j]:
             continue
         root = scn["exprs"][op[1]]
         if modifies_options(env, root):
             continue
         for i in closure(env, root):
-            if env[i].get("derived") is not None or not mem(i) or not reliable(scn, i):
+            if env[i].get("derived") is not None or not mem(j, i) or not reliable(S(j), i):
                 continue
             checks["O3"] += 1
             f = own_fids(env, i)
@@ -817,6 +884,10 @@ def oracle(scn, il=None):
     for j, op in enumerate(ops):
         if op[0] != "evaluate":
             continue
+        if envs is not None:
+            o4_variants(S(j), op, j, toks[j], fails, checks)
+            continue
+        env = E(j)
         for i, d in env.items():
             if d.get("derived") is not None or not d.get("effects") or not reliable(scn, i):
                 continue
@@ -860,14 +931,74 @@ def oracle(scn, il=None):
 
     # O5: NoCache datasets run every time
     for j, op in enumerate(ops):
+        env = E(j)
         i = root_ds(j)
-        if op[0] != "evaluate" or i is None or mem(i) or not ok[j] or env[i].get("derived") is not None or not reliable(scn, i):
+        if op[0] != "evaluate" or i is None or mem(j, i) or not ok[j] or env[i].get("derived") is not None or not reliable(S(j), i):
             continue
         checks["O5"] += 1
         n = count_calls(toks[j], own_fids(env, i)["body"][0])
         if n != 1:
             fails.append(dict(oracle="O5", desc=f"NoCache dataset {i} evaluated at the root ran its body {n} times", op_index=j, dataset=i))
     return fails, checks
+
+
+def o4_variants(scn, op, j, T, fails, checks):
+    """O4 on a mutator history: the datasets that can execute one body (the dataset itself and the derivatives
+    taken from it at some moment, each with the effects it held THEN) are told apart by nothing in the call
+    log, so every execution of the body must be followed by the callback and the effects of ONE of them, in
+    order, applied to its value - and no effect of the family runs anywhere else.  scn's env is the table of
+    this operation."""
+    env = scn["env"]
+    fam = {}
+    root = scn["exprs"][op[1]]
+    reach = closure(env, root) if not (root[0] == "dataset" and root[1] not in env) else set()
+    for i, d in env.items():
+        if d.get("derived") is not None or d.get("abstract"):
+            continue
+        fam.setdefault(d["fid"], []).append(i)
+    for b, members in fam.items():
+        if not all(reliable(scn, i) for i in members):
+            continue
+        variants, fids = [], set()
+        for i in members:
+            d = env[i]
+            f = own_fids(env, i)
+            fids.update(f["callback"] + f["effects"])
+            # only the objects this operation's root reaches can have executed the body
+            if not d.get("snapshot") and i in reach:      # the dataset itself
+                variants.append((tuple(f["callback"]), tuple(f["effects"]), effects_enabled(op) and not d.get("effects_disabled")))
+            for k, x in env.items():       # a derivative is a new Dataset object: its effects are enabled
+                if x.get("derived") is not None and base_of(env, k) == i and k in reach:
+                    variants.append((tuple(f["callback"]), tuple(f["effects"]), effects_enabled(op)))
+        positions = [t for t, x in enumerate(T) if x.startswith(f"c{b}(")]
+        stray = sum(count_calls(T, e) for e in fids)
+        if not positions and not stray:
+            continue
+        checks["O4"] += 1
+        for t in positions:
+            tail = []
+            for x in T[t + 1:]:
+                if not any(x.startswith(f"c{e}(") for e in fids):
+                    break
+                tail.append(x)
+            stray -= len(tail)
+            expected = []
+            for cb, effs, on in variants:
+                val = body_value(scn, b, T[t])
+                seq = []
+                if cb:
+                    seq.append(f"c{cb[0]}({val})")
+                    val = f"t{cb[0]}({val})"
+                if on:
+                    seq += [f"c{e}({val})" for e in effs]
+                expected.append(seq)
+            if tail not in expected:
+                fails.append(dict(oracle="O4", desc=f"body {b}: an execution is not followed by the callback and the effects attached to the dataset "
+                                                    "at that moment, once each, in registration order, applied to its value",
+                                  op_index=j, datasets=members, expected=expected[:3], got=tail))
+        if stray:
+            fails.append(dict(oracle="O4", desc=f"body {b}: {stray} callback / effect call(s) of its dataset(s) outside a body execution", op_index=j,
+                              datasets=members))
 
 
 # ----------------------------------------------------------------------------- fixed scenarios (always run)
@@ -950,21 +1081,602 @@ def fixed_scenarios():
     return out
 
 
+# ----------------------------------------------------------------------------- long histories (no eviction)
+
+def sweep_scenarios(ctx):
+    """one dataset (alone / below a consumer) evaluated under MORE THAN A HUNDRED distinct assignments of the option it
+    depends on, then exact / extra-key / permuted repeats of early, middle and late assignments, and the dependency
+    asked for at the root after it was computed below the consumer: every one of them is still stored"""
+    rng = ctx.rng
+    A, B = gen.FLAT[0], gen.FLAT[1]
+    out = []
+    for k in range(3 if ctx.quick else 10):
+        shape = ("single", "section", "consumer")[k % 3]
+        # (the printed result of one history must stay below what coqc can print: about 20 kB)
+        n = rng.randint(131, 140) if ctx.quick else rng.choice([131, 150, 180] if shape == "consumer" else [131, 150, 200, 257])
+        eff = [("pstep", 110, [])] if rng.random() < 0.7 else []
+        key = K(gen.SEC, gen.SX) if shape == "section" else K(A)
+        env = {1: _ds(100, [("option", key, None, None)], **({"effects": eff} if eff else {}))}
+        roots = [("dataset", 1)]
+        if shape == "consumer":
+            env[2] = _ds(101, [("dataset", 1), ("option", K(B), ("value", ("j", 0)), None)])
+            roots = [("dataset", 2), ("dataset", 1)]
+        vals = list(range(n))
+        if rng.random() < 0.5:
+            vals = [v if v % 3 else core.lit("s%d" % v) for v in vals]      # strings and integers mixed
+
+        def mk(v, extra=None):
+            o = {gen.SEC: {gen.SX: v}} if shape == "section" else {A: v}
+            if extra:
+                o.update(extra)
+            return o
+        ops, meta = [], []
+        const = {NEVER[0]: 1} if rng.random() < 0.5 else None       # an entry every dictionary of the sweep carries
+        for v in vals:
+            ops.append(("evaluate", 0, False, False, mk(v, const)))
+            meta.append(("fresh", None))
+        picks = [0, 1, 2, n // 2, n - 2, n - 1] + [rng.randrange(n) for _ in range(8)]
+        rng.shuffle(picks)
+        for t in picks:
+            kind = rng.choice(["repeat", "extra", "perm"])
+            base = ops[t][4]
+            if kind == "extra":
+                o = dict(base)
+                o[NEVER[1]] = rng.choice([0, 5, core.lit("z")])
+            elif kind == "perm" and len(base) > 1:
+                o = dict(reversed(list(base.items())))
+            else:
+                kind, o = "repeat", dict(base)
+            ops.append(("evaluate", 0, False, False, o))
+            meta.append((kind, t))
+            if len(roots) > 1 and rng.random() < 0.6:       # the dependency at the root: computed below the consumer long ago
+                ops.append(("evaluate", 1, False, False, dict(base)))
+                meta.append(("fresh", None))
+        out.append(dict(ftable={}, env=env, exprs=roots, ops=ops, meta=meta))
+    return out
+
+
+API_ENTRIES = ("bare", "class", "instance", "set_cache", "factory")
+
+
+def api_sweep(params):
+    """ORACLE ONLY (graphs built directly with labrea's public API, counters inside the bodies and effects): n distinct
+    assignments of the one option the graph depends on, each evaluated once; then every assignment again (exact / with a
+    never-mentioned key / with the top-level order permuted) in the given order; then once more in the first order.
+    -> failures: a body or an effect that ran more than once (or not exactly once) for an assignment, a wrong value"""
+    import random
+    from collections import Counter
+    from labrea import Option, dataset, cached
+    from labrea.application import FunctionApplication
+    from labrea.cache import MemoryCache
+    n, shape, entry, order = params["n"], params["shape"], params["entry"], params["order"]
+    runs, effs = Counter(), Counter()
+    memo = dataset(cache=MemoryCache)        # one configured factory, reused for every dataset of the graph
+
+    def make(f, **kw):
+        if entry == "bare":
+            return dataset(f, **kw)
+        if entry == "class":
+            return dataset(f, cache=MemoryCache, **kw)
+        if entry == "instance":
+            return dataset(f, cache=MemoryCache(), **kw)
+        if entry == "factory":
+            return memo(f, **kw)
+        d = dataset.nocache(f, **kw)
+        d.set_cache(MemoryCache)
+        return d
+
+    def effect(name):
+        return lambda value: effs.update([(name, value)])
+    opt = Option("A")
+
+    def base_body(a):
+        runs[("base", a)] += 1
+        return ("base", a)
+
+    def top_body(a, b):
+        runs[("top", a)] += 1
+        return ("top", a, b)
+
+    def left(a, b):
+        runs[("left", a)] += 1
+        return ("left", b)
+
+    def right(a, b):
+        runs[("right", a)] += 1
+        return ("right", b)
+
+    def top3(a, l, r):
+        runs[("top", a)] += 1
+        return ("top", l, r)
+    if shape == "cached_node":
+        root = cached(FunctionApplication(base_body, a=opt))
+        names, value = ["base"], (lambda a: ("base", a))
+    elif shape == "single":
+        root = make(base_body, defaults=dict(a=opt), effects=[effect("base")])
+        names, value = ["base"], (lambda a: ("base", a))
+    elif shape == "chain":
+        base = make(base_body, defaults=dict(a=opt), effects=[effect("base")])
+        root = make(top_body, defaults=dict(a=opt, b=base), effects=[effect("top")])
+        names, value = ["base", "top"], (lambda a: ("top", a, ("base", a)))
+    else:   # diamond
+        base = make(base_body, defaults=dict(a=opt), effects=[effect("base")])
+        lds = make(left, defaults=dict(a=opt, b=base))
+        rds = make(right, defaults=dict(a=opt, b=base))
+        root = make(top3, defaults=dict(a=opt, l=lds, r=rds))
+        names, value = ["base", "left", "right", "top"], (lambda a: ("top", ("left", ("base", a)), ("right", ("base", a))))
+    vals = [(v if v % 2 else "s%d" % v) for v in range(n)]
+    fails = []
+
+    def ev(v, how):
+        o = {"A": v, "W": 0}
+        if how == 1:
+            o["NEVER"] = v
+        elif how == 2:
+            o = {"W": 0, "A": v}
+        got = root.evaluate(o) if how != 2 else root(o)
+        if got != value(v) and len(fails) < 5:
+            fails.append(dict(what="wrong value", A=v, got=repr(got)[:120], want=repr(value(v))[:120]))
+    for v in vals:
+        ev(v, 0)
+    first = {k: c for k, c in runs.items() if c != 1}
+    second = list(vals)
+    if order == "reverse":
+        second.reverse()
+    elif order == "shuffle":
+        random.Random(params.get("seed", 0)).shuffle(second)
+    for t, v in enumerate(second):
+        ev(v, t % 3)
+    for v in vals:
+        ev(v, 0)
+    for name in names:
+        bad = [(v, runs[(name, v)]) for v in vals if runs[(name, v)] != 1]
+        if bad:
+            fails.append(dict(what=f"body of `{name}` did not run exactly once per distinct assignment in a history of {n} distinct assignments, each repeated",
+                              assignments=len(bad), examples=[dict(A=v, runs=c) for v, c in bad[:5]], already_in_first_pass=len(first)))
+    # effects: as many calls as executions of the body they are attached to, each with that execution's value
+    produced = {"base": (lambda v: ("base", v)), "top": (lambda v: ("top", v, ("base", v)))}
+    for name in ("base", "top"):
+        if any(k[0] == name for k in effs):
+            bad = [(v, effs[(name, produced[name](v))], runs[(name, v)]) for v in vals if effs[(name, produced[name](v))] != runs[(name, v)]]
+            if bad:
+                fails.append(dict(what=f"effect of `{name}` did not run once per execution of the body", assignments=len(bad),
+                                  examples=[dict(A=v, effect_calls=e, body_executions=r) for v, e, r in bad[:3]]))
+    return fails
+
+
+def api_sweeps(ctx):
+    rng = ctx.rng
+    plan = [dict(n=1100 if ctx.quick else 9000, shape="single", entry="bare", order="forward"),
+            dict(n=300, shape="diamond", entry=rng.choice(API_ENTRIES), order="reverse"),
+            dict(n=rng.randint(260, 400), shape="chain", entry=rng.choice(API_ENTRIES), order="shuffle", seed=rng.randrange(1000)),
+            dict(n=rng.randint(260, 400), shape="cached_node", entry="bare", order=rng.choice(["forward", "reverse"]))]
+    if not ctx.quick:
+        plan += [dict(n=rng.randint(500, 2500), shape=sh, entry=en, order=rng.choice(["forward", "reverse", "shuffle"]), seed=rng.randrange(1000))
+                 for sh in ("single", "chain", "diamond") for en in API_ENTRIES]
+    out, evaluations = [], 0
+    for params in plan:
+        evaluations += 3 * params["n"]
+        for f in api_sweep(params)[:2]:
+            out.append(dict(desc="long history (api_sweep, oracle only): " + f["what"], detail=f, family="api_sweep", params=params, finding=None))
+    return out, evaluations, plan
+
+
+# ----------------------------------------------------------------------------- mutator histories
+
+SNAP = 7000     # ids of the frozen copies a derivative is taken from
+
+
+def _copy_ds(d):
+    d = dict(d)
+    for f in ("effects", "overloads"):
+        if f in d:
+            d[f] = list(d[f])
+    return d
+
+
+def static_envs(scn):
+    """the history read statically: envs[j] = the dataset table as it stands when operation j runs, epochs[j] = a counter
+    that moves whenever a mutator replaced a cache or changed what a dataset selects (set_cache, set_dispatch, register,
+    overload).  Mirrors dataset.py: add_effects appends to the dataset's own list; disable_effects / enable_effects set
+    its flag; set_cache replaces its cache object; set_dispatch gives it a NEW Overloaded (lookup copied); register /
+    overload replace the lookup of the Overloaded object, which the dataset SHARES with the derivatives taken from it
+    (and with the dataset a derivative was taken from) since the last set_dispatch; with_options / with_default_options
+    make a new Dataset holding the overloads object, a COPY of the effects list, the cache object of that moment and
+    effects enabled."""
+    env = {k: _copy_ds(v) for k, v in scn["env"].items()}
+    group = {k: k for k, v in env.items() if v.get("derived") is None}
+    fresh = [10 ** 6]
+    epoch, envs, epochs = 0, [], []
+    for j in range(len(scn["ops"])):
+        todo = [m for k, m in scn["muts"] if k == j]
+        if todo:
+            env = {k: _copy_ds(v) for k, v in env.items()}
+        for m in todo:
+            kind = m[0]
+            if kind == "derive":
+                _, new, base, how, preset = m
+                snap = SNAP + new
+                env[snap] = dict(_copy_ds(env[base]), cid=env[base].get("cid", base), snapshot=True)
+                group[snap] = group[base]
+                env[new] = dict(derived=snap, how=how, preset=preset)
+                continue
+            d = env[m[1]]
+            if kind == "add_effects":
+                d["effects"] = list(d.get("effects") or []) + list(m[2])
+            elif kind == "add_effect":
+                d["effects"] = list(d.get("effects") or []) + [m[2]]
+            elif kind == "disable_effects":
+                d["effects_disabled"] = True
+            elif kind == "enable_effects":
+                d["effects_disabled"] = False
+            elif kind == "set_cache":
+                if m[2] is None:
+                    d["cache"] = "none"
+                else:
+                    d["cache"], d["cid"] = "mem", m[2]
+                epoch += 1
+            elif kind == "set_dispatch":
+                d["dispatch"] = m[2]
+                d["overloads"] = list(d.get("overloads") or [])
+                fresh[0] += 1
+                group[m[1]] = fresh[0]
+                epoch += 1
+            elif kind in ("register", "overload"):
+                pairs = [(m[2], m[3])] if kind == "register" else [(v, ("dataset", m[3])) for v in m[2]]
+                for r, g in group.items():
+                    if g == group[m[1]] and r in env:
+                        env[r]["overloads"] = list(env[r].get("overloads") or []) + pairs
+                epoch += 1
+            else:
+                raise TypeError(m)
+        envs.append(env)
+        epochs.append(epoch)
+    return envs, epochs
+
+
+class _LateRoot:
+    """a root of the history that is a derivative taken later (with_options / with_default_options mutator)"""
+
+    def __init__(self, builder, dsid):
+        self.b, self.dsid = builder, dsid
+
+    def evaluate(self, o):
+        return self.b.ds[self.dsid].evaluate(o)
+
+    def validate(self, o):
+        return self.b.ds[self.dsid].validate(o)
+
+    def keys(self, o):
+        return self.b.ds[self.dsid].keys(o)
+
+    def explain(self, o=None):
+        return self.b.ds[self.dsid].explain(o)
+
+
+class _HookedOps:
+    def __init__(self, ops, hook):
+        self.ops, self.hook = ops, hook
+
+    def __iter__(self):
+        for k, op in enumerate(self.ops):
+            self.hook(k)
+            yield op
+
+    def __len__(self):
+        return len(self.ops)
+
+
+def apply_live(b, m):
+    """one mutator, applied to the live labrea objects through the public API"""
+    from labrea.cache import NoCache
+    from labrea.computation import CallbackEffect
+    kind = m[0]
+    if kind == "derive":
+        _, new, base, how, preset = m
+        ds, p = b.dataset(base), core.py_json(preset)
+        b.ds[new] = ds.with_options(p) if how == "with_options" else ds.with_default_options(p)
+        return
+    ds = b.dataset(m[1])
+    if kind == "add_effects":
+        built = [b.build(e) for e in m[2]]
+        ds.add_effects(*([CallbackEffect(x) for x in built] if m[3] else built))
+    elif kind == "add_effect":
+        x = b.build(m[2])
+        ds.add_effect(CallbackEffect(x) if m[3] else x)
+    elif kind == "disable_effects":
+        ds.disable_effects()
+    elif kind == "enable_effects":
+        ds.enable_effects()
+    elif kind == "set_cache":
+        cid, form = m[2], m[3]
+        if cid is None:
+            ds.set_cache(NoCache() if form == "instance" else NoCache)
+        elif form == "instance":
+            ds.set_cache(b.w.cache(cid))
+        else:
+            ds.set_cache(lambda: b.w.cache(cid))
+    elif kind == "set_dispatch":
+        ds.set_dispatch(b.build(m[2]))
+    elif kind == "register":
+        ds.register(core.py_value(m[2]), b.build(m[3]))
+    elif kind == "overload":
+        vals = [core.py_value(v) for v in m[2]]
+        ds.overload(vals if len(vals) > 1 else vals[0])(b.dataset(m[3]))
+    else:
+        raise TypeError(m)
+
+
+def run_phased(scn):
+    """core.run_impl on ONE long-lived graph, with the scenario's mutators applied to the live objects right before the
+    operation they are scheduled at (the operations are handed to run_impl through an iterable that fires them; the
+    Builder run_impl instantiates is captured to reach the datasets)"""
+    holder = []
+    orig = core.Builder
+
+    class Live(orig):
+        def __init__(self, world, env):
+            super().__init__(world, env)
+            holder.append(self)
+
+        def dataset(self, dsid):
+            if dsid not in self.ds and dsid not in self.env:
+                return _LateRoot(self, dsid)
+            return super().dataset(dsid)
+
+    def hook(k):
+        for kk, m in scn["muts"]:
+            if kk == k:
+                apply_live(holder[0], m)
+    core.Builder = Live
+    try:
+        return core.run_impl(dict(scn, ops=_HookedOps(scn["ops"], hook)))
+    finally:
+        core.Builder = orig
+
+
+class PhasedPrinter(core.CoqPrinter):
+    def cache_id(self, dsid):
+        b = base_of(self.env, dsid)
+        return self.env[b].get("cid", b)
+
+
+def coq_phased(scn):
+    """the model's reading of a mutator history: the roots are printed once per phase, against the dataset table of that
+    phase (the cache ids are the same along the phases, so the model's store carries over exactly as the live cache
+    objects do); an operation of phase p on root i addresses expression p * len(roots) + i"""
+    envs, _ = static_envs(scn)
+    roots, es, index, phase = scn["exprs"], [], [], {}
+    for j, env in enumerate(envs):
+        if id(env) not in phase:
+            phase[id(env)] = len(phase)
+            pr = PhasedPrinter(env)
+            for e in roots:
+                es.append(pr.expr(e) if not (e[0] == "dataset" and e[1] not in env) else "(EValue VMissing)")
+        index.append(phase[id(env)] * len(roots))
+    ops = "[" + "; ".join(
+        "{| op_meth := %s; op_expr := %d%%nat; op_cfg := {| cache_ctx_off := %s; log_ctx_off := %s |}; op_opts := %s |}" % (
+            core.METH[m], index[j] + i, "true" if cc else "false", "true" if lc else "false", core.coq_dict(o))
+        for j, (m, i, cc, lc, o) in enumerate(scn["ops"])) + "]"
+    return f"run_scenario {core.coq_ftable(scn['ftable'])} [{'; '.join(es)}] {ops}"
+
+
+MUT_KINDS = ("add_effects", "add_effects", "add_effects", "add_effect", "add_effect", "disable_effects", "enable_effects",
+             "set_cache", "set_dispatch", "register", "overload", "derive", "derive")
+
+
+def mut_scenario(rng, serial):
+    """a small long-lived DAG (a dataset with effects / callback, a consumer of it, a dataset with a dispatch), a history of
+    evaluations over a few dictionaries, and 1-3 public mutators scheduled between them: directed so that the target has
+    been evaluated (or only asked for its keys / validated / explained) before, is then hit under a stored assignment and
+    misses under a new one"""
+    A, B, Z = gen.FLAT
+    opt = lambda k, d=None: ("option", K(k), d, None)
+    fid = [100]
+
+    def newf():
+        fid[0] += 1
+        return fid[0]
+    eff = lambda: ("pstep", newf(), [])
+    env = {1: _ds(100, [opt(A)] + ([opt(B, ("value", ("j", 0)))] if rng.random() < 0.4 else []))}
+    if rng.random() < 0.6:
+        env[1]["effects"] = [eff() for _ in range(rng.randint(1, 2))]
+        if rng.random() < 0.25:
+            env[1]["effects_disabled"] = True
+    if rng.random() < 0.25:
+        env[1]["callback"] = ("pstep", newf(), [])
+    env[2] = _ds(newf(), [("dataset", 1)] + ([opt(Z, ("value", ("j", 0)))] if rng.random() < 0.4 else []))
+    if rng.random() < 0.4:
+        env[2]["effects"] = [eff()]
+    roots = [("dataset", 1), ("dataset", 2)]
+    if rng.random() < 0.6:
+        env[3] = _ds(newf(), [opt(A)], dispatch=opt(Z, ("value", ("j", 0))), overloads=[(("j", 1), ("call", newf(), [opt(B, ("value", ("j", 0)))]))])
+        if rng.random() < 0.5:
+            env[3]["effects"] = [eff()]
+        roots.append(("dataset", 3))
+    n_ops = rng.randint(12, 18)
+    muts, late = [], {}
+    next_cid, next_ds = [60], [4]
+    slots = sorted(rng.sample(range(0 if rng.random() < 0.15 else 1, n_ops - 3), rng.randint(1, 3)))
+    disabled = {i for i, d in env.items() if d.get("effects_disabled")}
+    has_dispatch = {3} if 3 in env else set()
+    for k in slots:
+        kind = rng.choice(MUT_KINDS)
+        target = rng.choice([1, 1, 2] + ([3] if 3 in env else []))
+        if kind == "add_effects":
+            m = ("add_effects", target, [eff() for _ in range(rng.randint(1, 2))], rng.random() < 0.3)
+        elif kind == "add_effect":
+            m = ("add_effect", target, eff(), rng.random() < 0.3)
+        elif kind == "disable_effects":
+            m = ("disable_effects", target)
+            disabled.add(target)
+        elif kind == "enable_effects":
+            target = rng.choice(sorted(disabled)) if disabled else target
+            m = ("enable_effects", target)
+            disabled.discard(target)
+        elif kind == "set_cache":
+            r = rng.random()
+            if r < 0.2:
+                m = ("set_cache", target, None, rng.choice(["instance", "callable"]))
+            else:
+                next_cid[0] += 1
+                m = ("set_cache", target, next_cid[0], rng.choice(["instance", "callable"]))
+        elif kind == "set_dispatch":
+            m = ("set_dispatch", target, opt(Z, ("value", ("j", rng.choice([0, 1])))) if rng.random() < 0.7 else opt(B, ("value", ("j", 0))))
+            has_dispatch.add(target)
+        elif kind == "register":
+            impl = rng.choice([("call", newf(), [opt(A)]), opt(B, ("value", ("j", 7))), ("value", ("j", core.lit("r")))])
+            m = ("register", target, ("j", rng.choice([0, 1, 2])), impl)
+        elif kind == "overload":
+            # the dataset registered as an overload must not consume the target (dataset 2 consumes dataset 1)
+            able = sorted(has_dispatch - {1})
+            if not able:
+                m = ("add_effect", target, eff(), False)
+            else:
+                target = rng.choice(able)
+                other = rng.choice([i for i in (1, 2) if i != target])
+                m = ("overload", target, [("j", v) for v in rng.sample([1, 2, 5], rng.randint(1, 2))], other)
+        else:
+            base = rng.choice([1, 1, 2])
+            how = rng.choice(["with_options", "with_default_options"])
+            preset = rng.choice([{NEVER[0]: 1}, {B: 2}, {A: 9}, {Z: 1}])
+            new = next_ds[0]
+            next_ds[0] += 1
+            m = ("derive", new, base, how, preset)
+            late[len(roots)] = k
+            roots.append(("dataset", new))
+        muts.append((k, m))
+    moving = {k for k, m in muts if m[0] in ("set_cache", "set_dispatch", "register", "overload")}
+    pool = [{A: 1}, {A: 2}, {A: 1, B: 1}, {A: 3, Z: 1}, {A: 2, B: 1, Z: 1}]
+    ops, meta, unseen = [], [], [20]
+    for t in range(n_ops):
+        avail = [i for i in range(len(roots)) if late.get(i, -1) <= t]
+        prior = [j for j, o in enumerate(ops) if o[0] == "evaluate" and not any(j < k <= t for k in moving)]
+        just_mutated = [m for k, m in muts if k == t or k == t - 1]
+        r = rng.random()
+        if prior and r < 0.4:
+            src = rng.choice(prior)
+            idx, base = ops[src][1], ops[src][4]
+            kind = rng.choice(["repeat", "extra", "perm"])
+            if kind == "extra":
+                o = dict(base)
+                o[rng.choice(NEVER)] = rng.choice([0, 1, core.lit("z")])
+            elif kind == "perm" and len(base) > 1:
+                o = dict(reversed(list(base.items())))
+            else:
+                kind, o = "repeat", dict(base)
+            ops.append(("evaluate", idx, False, False, o))
+            meta.append((kind, src))
+            continue
+        if just_mutated and rng.random() < 0.7:
+            m = just_mutated[-1]
+            tgt = m[1]
+            cands = [i for i in avail if roots[i][1] == tgt or (rng.random() < 0.4 and roots[i][1] == 2 and tgt == 1)]
+            idx = rng.choice(cands or avail)
+        else:
+            idx = rng.choice(avail)
+        if r > 0.8 or (just_mutated and rng.random() < 0.5):
+            unseen[0] += 1
+            o = {A: unseen[0]}          # an assignment nothing has been stored for: the body executes
+            if rng.random() < 0.3:
+                o[Z] = 1
+        else:
+            o = dict(rng.choice(pool))
+        meth = "evaluate" if (t > 0 or rng.random() < 0.7) else rng.choice(["keys", "validate", "explain"])
+        ops.append((meth, idx, False, False, o))
+        meta.append(("fresh", None))
+    return dict(ftable={}, env=env, exprs=roots, ops=ops, meta=meta, muts=muts)
+
+
+def mut_fixed():
+    """the histories of the seeded changes' kind, spelled out: define, evaluate, attach / toggle / replace, evaluate again"""
+    A, B, Z = gen.FLAT
+    opt = lambda k, d=None: ("option", K(k), d, None)
+    ev = lambda i, o: ("evaluate", i, False, False, o)
+    env = {1: _ds(100, [opt(A)], effects=[("pstep", 110, [])]), 2: _ds(101, [("dataset", 1), opt(B, ("value", ("j", 0)))])}
+    out = []
+    out.append(dict(ftable={}, env=env, exprs=[("dataset", 1), ("dataset", 2)],
+                    ops=[ev(0, {A: 1}), ev(0, {A: 1}), ev(0, {A: 1, NEVER[0]: 1}), ev(0, {A: 2}), ev(1, {A: 3, B: 1}), ev(1, {A: 3, B: 2}),
+                         ev(0, {A: 4}), ev(0, {A: 5}), ev(0, {A: 1}), ev(0, {A: 6})],
+                    meta=[("fresh", None), ("repeat", 0), ("extra", 0), ("fresh", None), ("fresh", None), ("fresh", None), ("fresh", None),
+                          ("fresh", None), ("repeat", 0), ("fresh", None)],
+                    muts=[(2, ("add_effects", 1, [("pstep", 111, [])], False)), (6, ("disable_effects", 1)), (7, ("enable_effects", 1)),
+                          (7, ("add_effect", 1, ("pstep", 112, []), True))]))
+    env = {1: _ds(100, [opt(A)], effects=[("pstep", 110, [])], callback=("pstep", 105, [])), 2: _ds(101, [("dataset", 1)], effects=[("pstep", 113, [])])}
+    out.append(dict(ftable={}, env=env, exprs=[("dataset", 1), ("dataset", 2), ("dataset", 4), ("dataset", 5)],
+                    ops=[("keys", 0, False, False, {A: 1}), ev(0, {A: 1}), ev(2, {A: 1}), ev(2, {A: 2}), ev(0, {A: 2}), ev(0, {A: 3}), ev(2, {A: 4}),
+                         ev(1, {A: 5}), ev(0, {A: 1}), ev(0, {A: 1}), ev(3, {A: 1}), ev(3, {A: 7}), ev(1, {A: 7})],
+                    meta=[("fresh", None)] * 9 + [("repeat", 8)] + [("fresh", None)] * 3,
+                    muts=[(1, ("add_effect", 1, ("pstep", 111, []), False)), (2, ("derive", 4, 1, "with_options", {NEVER[0]: 1})),
+                          (4, ("add_effects", 1, [("pstep", 112, []), ("pstep", 114, [])], False)), (8, ("set_cache", 1, 61, "callable")),
+                          (10, ("derive", 5, 1, "with_default_options", {B: 1})), (12, ("add_effects", 2, [("pstep", 115, [])], True))]))
+    # the Overloaded object is SHARED by a dataset and the derivatives taken from it until set_dispatch replaces it:
+    # register / overload on either reaches both, set_dispatch only its own dataset
+    env = {1: _ds(100, [opt(A)]),
+           3: _ds(102, [opt(A)], dispatch=opt(Z, ("value", ("j", 0))), overloads=[(("j", 1), ("call", 103, [opt(B, ("value", ("j", 0)))]))],
+                  effects=[("pstep", 110, [])])}
+    out.append(dict(ftable={}, env=env, exprs=[("dataset", 3), ("dataset", 4), ("dataset", 1), ("dataset", 5)],
+                    ops=[ev(0, {A: 1}), ev(0, {A: 1, Z: 1}), ev(1, {A: 1, Z: 2}), ev(1, {A: 2, Z: 2}), ev(0, {A: 3, Z: 2}), ev(1, {A: 3, Z: 5}),
+                         ev(0, {A: 3, Z: 5}), ev(1, {A: 4, Z: 5}), ev(0, {A: 4, B: 1}), ev(1, {A: 5, B: 1}), ev(1, {A: 5, Z: 1}),
+                         ev(3, {A: 6, Z: 2}), ev(3, {A: 6, B: 1}), ev(0, {A: 6, B: 1})],
+                    meta=[("fresh", None)] * 14,
+                    muts=[(2, ("derive", 4, 3, "with_options", {NEVER[0]: 1})), (2, ("register", 3, ("j", 2), ("call", 104, [opt(A)]))),
+                          (5, ("overload", 3, [("j", 5)], 1)), (8, ("set_dispatch", 3, opt(B, ("value", ("j", 0))))),
+                          (8, ("register", 3, ("j", 1), ("value", ("j", core.lit("r"))))), (11, ("derive", 5, 3, "with_default_options", {Z: 2}))]))
+    return out
+
+
+def mut_scenarios(ctx, n):
+    return mut_fixed() + [mut_scenario(ctx.rng, i) for i in range(n)]
+
+
+def check_phased(ctx, scns, name):
+    """correspondence (labrea's live history vs the model's reading of it) + the counting oracle, for mutator histories"""
+    impls = [run_phased(s) for s in scns]
+    outs = ctx.coq_eval(name, cp.REQ, "", [coq_phased(s) for s in scns], shard=shard_for([sum(len(l) + 1 for l in il) for il in impls]))
+    models = [o.split(" ## ") for o in outs]
+    mism, violations, totals, ops = [], [], {}, 0
+    kinds = {}
+    for s, il, ml in zip(scns, impls, models):
+        ops += len(il)
+        for _, m in s["muts"]:
+            kinds[m[0]] = kinds.get(m[0], 0) + 1
+        if len(il) != len(ml):
+            mism.append(dict(where="Model/Eval.v vs labrea (mutator history, line count)", scenario_repr=cp.dump_scn(s)))
+        else:
+            for oi, (a, b) in enumerate(zip(il, ml)):
+                if not cp.same(a, b, False):
+                    mism.append(dict(where="Model/Eval.v (read through static_envs) vs labrea, mutator history", op_index=oi, op=repr(s["ops"][oi]),
+                                     impl=a, model=cp.strip_ghost(b), scenario_repr=cp.dump_scn(s)))
+                    break
+        envs, epochs = static_envs(s)
+        fails, checks = oracle(s, il, envs=envs, epochs=epochs)
+        for k, v in checks.items():
+            totals[k] = totals.get(k, 0) + v
+        for f in fails[:2]:
+            j = f["op_index"]
+            violations.append(dict(f, finding=None, impl_line=il[j][:300], mutators=repr(s["muts"]), scenario_repr=cp.dump_scn(s)))
+    return impls, mism, violations, totals, ops, kinds
+
+
 # ----------------------------------------------------------------------------- run / replay
 
 def shard_size(scns, budget=14000, cap=30):
     """how many scenarios go into one generated Coq file: the largest count <= cap such that no block's
     observation text exceeds the budget (coqc overflows its stack when it prints a vm_compute result of
     about 30 kB; sized on the implementation's observation lines, which the model's mirror)"""
-    sizes = [sum(len(l) + 1 for l in core.run_impl(s)) for s in scns]
+    return shard_for([sum(len(l) + 1 for l in core.run_impl(s)) for s in scns], budget, cap)
+
+
+def shard_for(sizes, budget=14000, cap=30):
     for n in range(cap, 1, -1):
         if all(sum(sizes[k:k + n]) <= budget for k in range(0, len(sizes), n)):
             return n
     return 1
 
 
-def check_scenarios(ctx, scns, name):
-    impls, models, mism, stats = cp.correspondence(ctx, scns, name, shard=shard_size(scns))
+def check_scenarios(ctx, scns, name, shard=None):
+    impls, models, mism, stats = cp.correspondence(ctx, scns, name, shard=shard or shard_size(scns))
     # an operation outside the modelled universe ("unmod": tolerated line by line) may have stored a value
     # in labrea that the model did not store: from there on the two histories are not comparable
     index = {cp.dump_scn(s): k for k, s in enumerate(scns)}
@@ -982,7 +1694,7 @@ def check_scenarios(ctx, scns, name):
     for scn, il, ml in zip(scns, impls, models):
         fails, checks = oracle(scn, il)
         for k, v in checks.items():
-            totals[k] += v
+            totals[k] = totals.get(k, 0) + v
         for f in fails[:2]:
             j = f["op_index"]
             finding = None      # no recorded defect excuses a C02 failure; a failure in the zone of an
@@ -1009,6 +1721,21 @@ def run(ctx):
     corpus = corpus_for(PID) + [(n, FIXED[n]["scn"]) for n in ("D2", "D2b", "D8", "D5") if PID not in FIXED[n]["props"]]
     scns = [s for _, s in fixed] + [dict(s, meta=[("fresh", None)] * len(s["ops"])) for _, s in corpus] + generate(ctx, n)
     impls, mism, stats, violations, tagged, totals, distinct = check_scenarios(ctx, scns, "Cases_C02")
+    # long histories: each in a generated file of its own (their observation text is long)
+    sweeps = sweep_scenarios(ctx)
+    s_impls, s_mism, s_stats, s_viol, _, s_totals, s_distinct = check_scenarios(ctx, sweeps, "Sweep_C02", shard=1)
+    # mutators called between evaluations of one long-lived graph
+    muts = mut_scenarios(ctx, 150 if ctx.quick else 1500)
+    m_impls, m_mism, m_viol, m_totals, m_ops, m_kinds = check_phased(ctx, muts, "Muts_C02")
+    # oracle only: thousands of distinct assignments on graphs built through the public entry points
+    a_viol, a_evals, a_plan = api_sweeps(ctx)
+    mism = mism + s_mism + m_mism
+    violations = violations + s_viol + m_viol + a_viol
+    distinct |= s_distinct
+    for extra in (s_totals, m_totals):
+        for k, v in extra.items():
+            totals[k] = totals.get(k, 0) + v
+    stats["ops"] += s_stats["ops"] + m_ops
     # the recorded unreported-read defects (C01's findings) must not disturb the counting oracle
     wit = {}
     for fid, w in WITNESSES.items():
@@ -1020,14 +1747,18 @@ def run(ctx):
         for k, _ in s.get("meta") or []:
             kinds[k] = kinds.get(k, 0) + 1
     return {
-        "evaluations": stats["ops"] + sum(v for k, v in totals.items() if k in ("O1", "O2", "O3", "O4", "O5")),
+        "evaluations": stats["ops"] + sum(v for k, v in totals.items() if k in ("O1", "O2", "O3", "O4", "O5", "O1_dependencies")) + a_evals,
         "distinct_nontrivial": len(distinct),
         "rule": "dataset DAGs (diamonds, a dependency used twice, chains, overloads, pre-set/default options, with_options derivatives, NoCache nodes, "
                 "effects, callbacks, random sub-expressions, dependencies pinned by a forced pre-set section / scalar / deep section (with_options, options=, "
                 "forced WithOptions node) read whole or by leaf below one or two cached consumers, bodies returning None / falsy constants, sinks kept for "
                 "their effect) x histories of 16 operations on one long-lived graph: fresh dictionaries, exact repeats, "
                 "repeats with never-mentioned keys added, repeats with the top-level order permuted, relevant changes, repeats in which the caller "
-                "supplies / omits / changes the entries a forced pre-set overrides; non-trivial = the history "
+                "supplies / omits / changes the entries a forced pre-set overrides; plus long histories (131+ distinct assignments of one dataset, "
+                "then repeats of early / middle / late ones; oracle only: up to 1100 distinct assignments on graphs built with @dataset / "
+                "dataset(cache=MemoryCache) / cache=<instance> / set_cache / a reused configured factory / cached(...)) and mutator histories "
+                "(add_effects / add_effect / disable_effects / enable_effects / set_cache / set_dispatch / register / overload / with_options / "
+                "with_default_options called between the evaluations of one long-lived graph); non-trivial = the history "
                 "contains at least one storing miss and at least one cache hit; distinct by hash of the scenario",
         "samples": [dict(env=repr(s["env"])[:400], first_ops=[repr(o)[:140] for o in s["ops"][:3]], observed=il[:3]) for s, il in list(zip(scns, impls))[:3]],
         "traces_validated_against_impl": stats["ops"],
@@ -1040,7 +1771,9 @@ def run(ctx):
                              scenarios_with_none_bodies=sum(1 for s in scns if any(d == ("const", ("j", None)) and any(
                                  e.get("fid") == f for e in s["env"].values()) for f, d in s["ftable"].items())),
                              scenarios_with_forced_section_presets=sum(1 for s in scns if forced_section_presets(s)),
-                             oracle_failures_tagged=tagged, oracle_failures_on_other_properties_witnesses=wit),
+                             oracle_failures_tagged=tagged, oracle_failures_on_other_properties_witnesses=wit,
+                             long_histories=[len(x["ops"]) for x in sweeps], api_sweeps_oracle_only=a_plan,
+                             mutator_histories=len(muts), mutators=m_kinds, mutator_history_ops=m_ops),
         "exhaustive": False,
         "assumptions": ["user code is deterministic and total on the values it is given; bodies/effects are the harness's counting functions",
                         "'the options a dataset depends on' is measured per evaluation as the top-level option names a cache-free evaluation of a fresh "
@@ -1068,7 +1801,17 @@ def forced_section_presets(scn):
 
 
 def replay(ctx, payload):
+    if payload.get("family") == "api_sweep":        # oracle only: the graph is built directly with labrea's public API
+        fails = api_sweep(payload["params"])
+        return bool(fails), dict(oracle_failures=fails, params=payload["params"])
     scn = cp.load_scn(payload["scenario_repr"])
+    if scn.get("muts") is not None:                 # a mutator history
+        il = run_phased(scn)
+        envs, epochs = static_envs(scn)
+        fails, _ = oracle(scn, il, envs=envs, epochs=epochs)
+        ml = ctx.coq_eval("Replay_C02", cp.REQ, "", [coq_phased(scn)])[0].split(" ## ")
+        return bool(fails) or not cp.agrees(il, ml, scn), dict(oracle_failures=fails, mutators=repr(scn["muts"]), impl=il,
+                                                               model=[cp.strip_ghost(x) for x in ml])
     il = core.run_impl(scn)
     fails, _ = oracle(scn, il)
     ml = ctx.coq_eval("Replay_C02", cp.REQ, "", [core.coq_scenario(scn)])[0].split(" ## ")
